@@ -1,3 +1,165 @@
 import Driver.Common
--- stub driver (not yet implemented)
-def main : IO Unit := Driver.run () (fun s _ => (s, "bad-op"))
+import SSV.Model.RelayLife
+import SSV.Model.RelayLifeCfg
+import Std.Data.HashSet
+open SSV SSV.RelayLife
+
+/-
+Driver of C12: `explore <variant> <scenario>` explores the executable life-cycle model exhaustively
+(one client key, at most three datagrams, send channel capacity 2) under the environment of the scenario and
+answers the set of abstract outcomes the model allows:
+  stop=prompt|timer   (timer: a state after Stop was called in which no goroutine of the relay can move)
+  leak=no|yes         (a NAT socket still open when Stop has returned / after eviction / after failed initialisations)
+  panic=no|yes        (send on a closed channel, second close)
+  evict=.. restart=.. (scenario evict)
+-/
+
+namespace C12
+
+def stN : St → Nat | .nil => 0 | .nat => 1 | .srv => 2
+def dlN : Dl → Nat | .unset => 0 | .future => 1 | .past => 2
+def ipcN : IPc → Nat
+  | .getClient => 0 | .newSession => 1 | .listen => 2 | .setDl => 3 | .newPacker => 4 | .swap => 5 | .spawn => 6
+  | .dRead => 7 | .dProc => 8 | .cLock => 9 | .cClose => 10 | .cDelete => 11 | .cUnlock => 12 | .cDrain => 13 | .done => 14
+def upcN : UPc → Nat
+  | .none => 0 | .recv => 1 | .send => 2 | .arm => 3 | .check => 4 | .force => 5 | .closeSock => 6 | .done => 7
+def muN : Holder → Nat | .free => 0 | .recv => 1 | .stop => 2 | .cleanup i => 3 + i
+def rpcN : RPc → Nat | .read => 0 | .unlock => 1 | .done => 2 | .wantLock c => 3 + 2 * c | .hold c => 4 + 2 * c
+def spcN : SPc → Nat
+  | .idle => 0 | .dlServer => 1 | .waitMwg => 2 | .lock => 3 | .iter => 4 | .unlock => 5 | .waitWg => 6 | .closeSrv => 7 | .done => 8
+  | .pend i => 9 + i
+def bN (b : Bool) : Nat := if b then 1 else 0
+
+def encE (e : Entry) : List Nat :=
+  [e.key, stN e.st, dlN e.dl, bN e.sock, bN e.chClosed, e.q, bN e.clean, ipcN e.ipc, upcN e.upc, bN e.visited]
+
+/-- key of a state for the visited set (keys < 2) -/
+def enc (s : State) (extra : Nat) : List Nat :=
+  [extra, s.n, muN s.mu, rpcN s.rpc, spcN s.spc, bN s.srvPast, bN s.panic,
+   (s.table 0).getD 99, (s.table 1).getD 99] ++ (List.range s.n).flatMap (fun i => encE (s.ent i))
+
+/-- all internal events that might be enabled -/
+def internalEvs (s : State) : List Ev :=
+  [.rLock, .rProc true, .rUnlock, .rExit, .stop] ++
+  (List.range s.n).flatMap (fun i => [.dTimeout i, .dSend i, .cleanup i, .uRecv i 1, .uRecv i 2, .uStep i, .stopVisit i])
+
+structure Policy where
+  arrivals : Nat            -- datagrams of client 0 the environment may still send (counted in `extra`)
+  initOk : IPc → Bool       -- outcome of each initialiser call
+  heldAt : Option IPc       -- an initialiser call that returns only when the environment releases it (any time)
+  dPacket : Bool            -- the target may answer
+  timer : State → Nat → Bool
+  stopCall : State → Bool
+
+def idleEstablished (e : Entry) : Bool := e.ipc == .dRead && e.upc == .recv && e.q == 0
+
+/-- events of the policy enabled in (s, used arrivals) with the successor's `extra` -/
+def succs (cfg : Cfg) (p : Policy) (s : State) (used : Nat) : List (State × Nat) :=
+  let evs : List (Ev × Nat) :=
+    (internalEvs s).map (fun e => (e, used)) ++
+    (if used < p.arrivals then [(.arrive 0, used + 1)] else []) ++
+    (List.range s.n).flatMap (fun i =>
+      [(Ev.init i (p.initOk (s.ent i).ipc), used)] ++
+      (if p.dPacket then [(Ev.dPacket i, used)] else []) ++
+      (if p.timer s i then [(Ev.timer i, used)] else [])) ++
+    (if p.stopCall s then [(.stopCall, used)] else [])
+  evs.filterMap (fun (e, u) => (step cfg s e).map (fun s' => (s', u)))
+
+def internalEnabled (cfg : Cfg) (p : Policy) (s : State) : Bool :=
+  (internalEvs s).any (fun e => (step cfg s e).isSome) ||
+  (List.range s.n).any (fun i => (step cfg s (.init i (p.initOk (s.ent i).ipc))).isSome)
+
+partial def bfs (cfg : Cfg) (p : Policy) (work : List (State × Nat)) (seen : Std.HashSet (List Nat)) (acc : List (State × Nat)) :
+    List (State × Nat) :=
+  match work with
+  | [] => acc
+  | (s, u) :: rest =>
+    let k := enc s u
+    if seen.contains k then bfs cfg p rest seen acc
+    else bfs cfg p (succs cfg p s u ++ rest) (seen.insert k) ((s, u) :: acc)
+
+def anySock (s : State) : Bool := (List.range s.n).any (fun i => (s.ent i).sock)
+
+def setStr (xs : List String) : String := ",".intercalate (xs.eraseDups.mergeSort (fun a b => a ≤ b))
+
+/-- classify the states reached under a policy -/
+def classify (cfg : Cfg) (p : Policy) (states : List (State × Nat)) : List String × List String × List String :=
+  states.foldl (fun (stop, leak, pan) (s, _) =>
+    let pan := if s.panic then "yes" :: pan else pan
+    let stuck := s.spc != .idle && s.spc != .done && !internalEnabled cfg p s
+    let stop := if stuck then "timer" :: stop else if s.spc == .done then "prompt" :: stop else stop
+    let leak := if s.spc == .done then (if anySock s then "yes" else "no") :: leak else leak
+    (stop, leak, pan)) ([], [], ["no"])
+
+def allOk : IPc → Bool := fun _ => true
+
+def explore (cfg : Cfg) (scenario : String) : String :=
+  let never : State → Nat → Bool := fun _ _ => false
+  let run (p : Policy) (starts : List (State × Nat)) := bfs cfg p starts {} []
+  let out (stop leak pan : List String) (extra : String) :=
+    s!"stop={setStr stop} leak={setStr leak} panic={setStr pan}{extra}"
+  match scenario with
+  | "stop-flood" =>
+    let p : Policy := { arrivals := 3, initOk := allOk, heldAt := none, dPacket := true, timer := never, stopCall := fun _ => true }
+    let (a, b, c) := classify cfg p (run p [(State.init, 0)])
+    out a b c ""
+  | "stop-idle" =>
+    let p : Policy := { arrivals := 1, initOk := allOk, heldAt := none, dPacket := true, timer := never,
+                        stopCall := fun s => s.n ≥ 1 && s.rpc == .read && (List.range s.n).all (fun i => idleEstablished (s.ent i)) }
+    let (a, b, c) := classify cfg p (run p [(State.init, 0)])
+    out a b c ""
+  | "stop-init-ok" =>
+    let p : Policy := { arrivals := 1, initOk := allOk, heldAt := some .newSession, dPacket := false, timer := never, stopCall := fun _ => true }
+    let (a, b, c) := classify cfg p (run p [(State.init, 0)])
+    out a b c ""
+  | "stop-init-fail" =>
+    let p : Policy := { arrivals := 1, initOk := fun pc => pc != .newSession, heldAt := some .newSession, dPacket := false, timer := never,
+                        stopCall := fun _ => true }
+    let (a, b, c) := classify cfg p (run p [(State.init, 0)])
+    out a b c ""
+  | "init-fail" =>
+    -- reject: GetUDPClient fails; unresolvable / refused: NewSession fails.  Both are explored.
+    let mk (bad : IPc) : Policy := { arrivals := 2, initOk := fun pc => pc != bad, heldAt := none, dPacket := false, timer := never,
+                                     stopCall := fun s => s.rpc == .read && (List.range s.n).all (fun i => (s.ent i).finished) }
+    let (a1, b1, c1) := classify cfg (mk .getClient) (run (mk .getClient) [(State.init, 0)])
+    let (a2, b2, c2) := classify cfg (mk .newSession) (run (mk .newSession) [(State.init, 0)])
+    out (a1 ++ a2) (b1 ++ b2) (c1 ++ c2) ""
+  | "evict" =>
+    -- phase 1: one datagram, the session gets established and idle; then the NAT timer fires; internal moves only
+    let p1 : Policy := { arrivals := 1, initOk := allOk, heldAt := none, dPacket := false,
+                         timer := fun s i => idleEstablished (s.ent i) && s.rpc == .read, stopCall := fun _ => false }
+    let s1 := run p1 [(State.init, 0)]
+    let term1 := s1.filter (fun (s, u) => u == 1 && (succs cfg p1 s u).isEmpty)
+    let evicted := term1.all (fun (s, _) => s.n == 1 && (s.ent 0).finished && (s.table 0).isNone)
+    let leak1 := term1.any (fun (s, _) => anySock s)
+    -- phase 2: a second datagram of the same client; then Stop
+    let p2 : Policy := { arrivals := 2, initOk := allOk, heldAt := none, dPacket := false, timer := never,
+                         stopCall := fun s => s.n ≥ 2 && s.rpc == .read && idleEstablished (s.ent 1) }
+    let s2 := run p2 term1
+    let established := s2.any (fun (s, _) => s.n == 2 && s.table 0 == some 1 && idleEstablished (s.ent 1) && (s.ent 1).dl == .future)
+    let dead2 := s2.any (fun (s, u) => s.spc == .idle && (succs cfg p2 s u).isEmpty && !(s.n == 2 && idleEstablished (s.ent 1)))
+    let (a, b, c) := classify cfg p2 s2
+    let c := if s1.any (fun (s, _) => s.panic) then "yes" :: c else c
+    let b := if leak1 then "yes" :: b else b
+    out a b c s!" evict={if evicted && !term1.isEmpty then "yes" else "no"} restart={if established && !dead2 then "yes" else "no"}"
+  | _ => "bad-scenario"
+
+end C12
+
+def stepC12 (u : Unit) (line : String) : Unit × String :=
+  match fields line with
+  | ["explore", variant, scenario] =>
+    match progsOf variant with
+    | none => (u, "bad-variant")
+    | some p => match cfgOf p 2 with
+      | none => (u, "cfg-unrecognised")
+      | some cfg => (u, C12.explore cfg scenario)
+  | ["cfg", variant] =>
+    match progsOf variant with
+    | none => (u, "bad-variant")
+    | some p => match cfgOf p 2 with
+      | none => (u, "cfg-unrecognised")
+      | some cfg => (u, s!"recheck={cfg.recheck} closeSetDl={cfg.closeSetDl} closeNewPacker={cfg.closeNewPacker} closeSwap={cfg.closeSwap} uplinkCloses={cfg.uplinkCloses}")
+  | _ => (u, "bad-op")
+
+def main : IO Unit := Driver.run () stepC12
